@@ -4,7 +4,7 @@
 
 use std::rc::Rc;
 
-use verif_core::{json, Rng};
+use verif_core::Rng;
 
 use crate::backend::{Backend, Fs};
 use crate::model::Op;
@@ -289,11 +289,6 @@ pub fn strace_lane(seed: u64) -> Result<StraceOutcome, String> {
         ));
     }
     Ok(o)
-}
-
-#[allow(dead_code)]
-pub fn _unused() -> serde_json::Value {
-    json!({})
 }
 
 /// Minimal stand-alone reproduction of the torn-frame-record finding
